@@ -456,19 +456,20 @@ def goBody (recovered : Bool) (panic : Option Err) : GoResult :=
   | none => .returned
   | some p => if recovered then .unhandled p else .crash p
 
-/-- `Future(factory)` (operator_creation.go:458-473): the factory runs on a goroutine of the
-    library; its value is delivered as `Next, Complete`, its returned error as `Error` — but a
-    *panic* of the factory is only seen by the wrapper of the goroutine: the subscriber is not told. -/
+/-- `Future(factory)` (operator_creation.go:458-488): the factory runs on a goroutine of the
+    library (under `recoverUnhandledError`); inside it the call of the factory is wrapped in
+    `lo.TryCatchWithErrorValue`, so its value is delivered as `Next, Complete`, its returned error as
+    `Error`, and its *panic* as `Error(observable(p))` — like a panic of a subscribe function. -/
 structure GoRun where
   res : GoResult
   /-- what the subscriber's callbacks receive -/
   seen : List (Notif Int) := []
 deriving DecidableEq, Repr
 
-def futureRun (recovered : Bool) (panic : Option Err) (v : Int) : GoRun :=
+def futureRun (panic : Option Err) (v : Int) : GoRun :=
   match panic with
   | none => { res := .returned, seen := [.next {} v, .complete {}] }
-  | some p => { res := goBody recovered (some p), seen := [] }
+  | some p => { res := .returned, seen := [.error {} (.observable p)] }
 
 /-! ### a destination that is not an `observerImpl`
 
